@@ -52,8 +52,11 @@ def gen(rng, tier):
             ops.append(['save', p, ns, {'v': cnt, 'x': gen_value(rng, 1)}])
         elif k < 0.45:
             ops.append(['get', p, ns])
-        elif k < 0.62:
+        elif k < 0.56:
             ops.append(['block', p, ns, 'k%d' % (cnt % 3), cnt])
+        elif k < 0.62:
+            # two session() blocks for the same client overlap in time
+            ops.append(['overlap', p, ns, cnt])
         elif k < 0.70:
             ops.append(['disc', p, ns])
             if rng.random() < 0.8:
@@ -265,6 +268,57 @@ def _run(case, cfg, w):
             shadow[tkey(sid, ns)] = sh
             saved_ns.add((p, ns))
             read(sid, ns, where + ' (read after block)')
+        elif k == 'overlap':
+            _, p, ns, n = op
+            sid = sc.sid(p, ns)
+            if not sid:
+                continue
+            t = target(ns)
+
+            def cm():
+                return t.session(sid, namespace=ns) if t is srv \
+                    else t.session(sid)
+            if w.mode == 'async':
+                import asyncio
+
+                async def outer():
+                    async with cm() as sess:
+                        sess['outer%d' % n] = 1
+                        await asyncio.sleep(0.01)
+                        sess['outer_late%d' % n] = 2
+
+                async def inner():
+                    await asyncio.sleep(0.005)
+                    async with cm() as sess:
+                        sess['inner%d' % n] = 3
+            else:
+                def outer():
+                    with cm() as sess:
+                        sess['outer%d' % n] = 1
+                        w.kernel.sleep(0.01)
+                        sess['outer_late%d' % n] = 2
+
+                def inner():
+                    w.kernel.sleep(0.005)
+                    with cm() as sess:
+                        sess['inner%d' % n] = 3
+            h1 = w.call(outer, _label=('session-outer',))
+            h2 = w.call(inner, _label=('session-inner',))
+            w.settle()
+            if h1.exc is not None or h2.exc is not None:
+                v.add('session_block_raised', '%s: %r %r'
+                      % (where, h1.exc, h2.exc))
+                continue
+            nw = dict(model.get((sid, ns), {}))
+            nw.update({'outer%d' % n: 1, 'outer_late%d' % n: 2,
+                       'inner%d' % n: 3})
+            prev_shadow = dict(shadow.get(tkey(sid, ns), {}))
+            prev_shadow.update({'outer%d' % n: 1, 'outer_late%d' % n: 2,
+                                'inner%d' % n: 3})
+            model[(sid, ns)] = nw
+            shadow[tkey(sid, ns)] = prev_shadow
+            saved_ns.add((p, ns))
+            read(sid, ns, where + ' (read after overlapping blocks)')
         elif k == 'disc':
             _, p, ns = op
             if not sc.alive(p):
